@@ -474,3 +474,83 @@ func TestProp_C14_Recv(t *testing.T) {
 		sim.Judge(rt, "C14recv", c)
 	})
 }
+
+// ---- C14 (no peer instance known yet): pieces of two peer instances interleaved at the start of a conversation ----
+
+// UnboundCase: a fresh version 3 conversation receives the pieces of two messages, one from each of two instances
+// of the peer, in the given order (0..n-1 are X's pieces, n..2n-1 are Y's).
+type UnboundCase struct {
+	N     int   `json:"n"`
+	Order []int `json:"order"`
+}
+
+func runFragUnbound(c *UnboundCase) *sim.Outcome {
+	o := &sim.Outcome{}
+	a := sim.NewParty(sim.PartyOpts{Name: "A", Seed: 1444, Pol: sim.PolV3, KeyI: 0})
+	own := a.C.GetOurInstanceTag()
+	msgs := [2][]byte{[]byte("from the first instance: " + token(1, 1) + " xxxxxxxxxxxx"), []byte("from the second one: " + token(1, 2) + " yyyyyyyyyyyyyyyy")}
+	tags := [2]uint32{0x1111aaaa, 0x2222bbbb}
+	var pieces [][]byte
+	for i := 0; i < 2; i++ {
+		sz := (len(msgs[i]) + c.N - 1) / c.N
+		for k := 0; k < c.N; k++ {
+			e := (k + 1) * sz
+			if e > len(msgs[i]) {
+				e = len(msgs[i])
+			}
+			pieces = append(pieces, ref.MakeFragment(true, tags[i], own*uint32(k&1), k+1, c.N, msgs[i][k*sz:e]))
+		}
+	}
+	delivered := 0
+	for _, idx := range c.Order {
+		plain, _, _ := a.C.Receive(pieces[idx%len(pieces)])
+		if plain == nil {
+			continue
+		}
+		delivered++
+		if !bytes.Equal(plain, msgs[0]) && !bytes.Equal(plain, msgs[1]) {
+			return o.Fail("C14/spurious-delivery", "pieces of two peer instances arrived in the order %v; Receive returned %.70q, which neither of them sent", c.Order, plain)
+		}
+	}
+	if delivered > 0 {
+		o.Class("delivered")
+	}
+	o.NonTrivial = true
+	return o
+}
+
+func init() { reg("C14unbound", runFragUnbound) }
+
+// TestProp_C14_Unbound: every interleaving that keeps each instance's pieces in order (2- and 3-piece messages),
+// plus every order with one piece repeated.
+func TestProp_C14_Unbound(t *testing.T) {
+	si, sn := sim.Shard()
+	idx := 0
+	for _, n := range []int{2, 3} {
+		var rec func(order []int, x, y int)
+		rec = func(order []int, x, y int) {
+			if x == n && y == n {
+				for rep := -1; rep < 2*n; rep++ {
+					idx++
+					if idx%sn != si {
+						continue
+					}
+					ord := append([]int{}, order...)
+					if rep >= 0 {
+						ord = append(ord, rep)
+					}
+					sim.Judge(t, "C14unbound", &UnboundCase{N: n, Order: ord})
+				}
+				return
+			}
+			if x < n {
+				rec(append(order, x), x+1, y)
+			}
+			if y < n {
+				rec(append(order, n+y), x, y+1)
+			}
+		}
+		rec(nil, 0, 0)
+	}
+	sim.MarkCompleted("C14unbound", true)
+}
